@@ -29,7 +29,10 @@ Definition optimize_pre_fix (n : num) : num :=
   let g := gcd_total (up n) (down n) in mknum (bdiv (up n) g) (bdiv (down n) g).
 
 Definition from_big_num (u d : big) : num := optimize (mknum u d).
-Definition nnew (u : Z) (d : Z) : num := optimize (mknum (bnew u) (bnew d)).
+(* Num::new(up: isize, down: usize) builds the denominator with `BigNum::new(down as isize)`: the cast wraps a
+   denominator of 2^63 or more to a negative machine integer (written into the model explicitly) *)
+Definition wrap_isize (d : Z) : Z := if (d <? 2 ^ 63)%Z then d else (d - 2 ^ 64)%Z.
+Definition nnew (u : Z) (d : Z) : num := optimize (mknum (bnew u) (bnew (wrap_isize d))).
 
 Definition nminus (n : num) : num := mknum (bminus (up n)) (down n).
 Definition nneg (n : num) : num := mknum (bneg (up n)) (down n).
